@@ -222,6 +222,25 @@ def c06_spec(draw, max_glyphs=9, max_passes=3):
     # class-map layout: classes[0:nlinear] are stored as linear glyph lists, the rest as sorted (glyph, index) lookup tables
     # searched by bisection; both encodings mean the same (no class above repeats a glyph), so the model does not care
     spec['nlinear'] = draw(st.sampled_from([len(classes), len(classes), 0, draw(st.integers(0, len(classes)))]))
+    # 1 font in 3 carries *pass bits* (Silf aPassBits: a glyph attribute whose bit i says "this glyph takes no part in pass i"; the engine skips
+    # pass i while every glyph the segment has ever held says so).  They are assigned the way the GDL compiler does — bit i is set exactly for
+    # the glyphs that occur in no item class of any rule of pass i — so skipping is invisible and the reference model needs no notion of it;
+    # an engine that skips a pass a glyph produced earlier has made necessary (seed S10-C06 hoisted the test out of the pass loop) disagrees.
+    if draw(st.integers(0, 2)) == 0 and not any(p.get('reverse') for p in passes) and not os.environ.get('VERIF_NO_PASSBITS'):
+        PB = A0 + NGATTR_USER + 1
+        spec['ngattr'] = PB + 1
+        spec['apassbits'] = PB
+        for gi, g in enumerate(glyphs):
+            bits = 0
+            for pi, p in enumerate(passes[:8]):
+                used = set()
+                for r in p['rules']:
+                    for ci in r['items']:
+                        used.update(classes[ci])
+                if gi not in used:
+                    bits |= 1 << pi
+            if bits:
+                g.setdefault('attrs', {})[str(PB)] = bits
     # 1 font in 4 declares its first passes (often all of them) *line-break* passes (Silf iSubst > 0): the engine runs those exactly like
     # substitution passes, so neither the reference model nor any invariant changes (seed S7-C05 skipped associateChars for fonts whose
     # passes in front of the positioning stage are all line-break passes)
